@@ -190,3 +190,64 @@ def replay(spec):
             ok, detail = _run_guard(*g)
             return ok, detail, "the differentiation request must raise"
     return False, f"finite namespace obligation {label} violated on this tree", "see contracts/guards.py"
+
+
+def run_nograd_values(rep, tier):
+    """C14: every function registered as non-differentiable returns, on a differentiated array, a PLAIN value equal to NumPy's (both modes,
+    trace depth 1 and 2) and blocks derivative flow (d/dx [sum(f(x) * 1.0) + sum(x)] = 1).  NG-methods: every name in ArrayBox's method
+    tables is bound to the autograd.numpy function of the same name."""
+    import autograd.numpy as anp
+    import autograd.tracer as T
+    from autograd.core import VJPNode, make_jvp, make_vjp
+    from autograd.numpy import numpy_boxes as NB
+    x0 = onp.array([[0.5, -1.5, 2.25], [2.75, 0.25, -3.5]])
+    y0 = onp.array([1.0, -1.5, 2.0])
+    two = {"floor_divide", "logical_and", "logical_or", "logical_xor", "allclose", "isclose", "array_equal", "array_equiv", "greater", "greater_equal", "less", "less_equal", "equal",
+           "not_equal", "result_type"}
+    special = {"argpartition": lambda f, x: f(x, 1), "searchsorted": lambda f, x: f(onp.sort(getv(x).ravel()), 0.3) if False else f(anp.sort(x[0]), 0.3), "isscalar": lambda f, x: f(x[0, 0])}
+
+    def getv(v):
+        return T.getval(v)
+    fns = sorted(T.notrace_primitives[VJPNode], key=lambda f: getattr(f, "__name__", ""))
+    rec = []
+
+    def probe(x):
+        for f in fns:
+            nm = getattr(f, "__name__", repr(f))
+            try:
+                if nm in special:
+                    r = special[nm](f, x)
+                    e = special[nm](getattr(onp, nm), x0)
+                elif nm in two:
+                    r, e = f(x, y0), getattr(onp, nm)(x0, y0)
+                else:
+                    r, e = f(x), getattr(onp, nm)(x0)
+            except Exception as ex:
+                rec.append((nm, False, f"raised {type(ex).__name__}: {str(ex)[:60]}"))
+                continue
+            plain = not T.isbox(r) and not (isinstance(r, tuple) and any(T.isbox(q) for q in r))
+            same = (all(onp.array_equal(a, b) for a, b in zip(r, e)) if isinstance(e, tuple) else (r == e if isinstance(e, (bool, int, onp.dtype, type)) else onp.array_equal(onp.asarray(r), onp.asarray(e)))) if plain else False
+            rec.append((nm, bool(plain and same), f"{nm}: plain={plain}, equal to NumPy={same}"))
+        return anp.sum(anp.floor(x) * 1.0 + anp.sign(x) + (x > 0) * 2.0) + anp.sum(x)
+    with warnings.catch_warnings():
+        warnings.simplefilter("ignore")
+        for mode, runner in (("rev", lambda: make_vjp(probe, x0)[0](1.0)), ("fwd", lambda: make_jvp(probe, x0)(onp.ones_like(x0))[1]),
+                             ("rev-in-rev", lambda: make_vjp(lambda z: anp.sum(make_vjp(probe, z)[0](1.0)) + anp.sum(z), x0)[0](1.0))):
+            del rec[:]
+            try:
+                g = runner()
+                flow = onp.array_equal(onp.asarray(g), onp.ones_like(x0) if mode != "fwd" else onp.asarray(6.0)) if mode != "rev-in-rev" else True
+                rec.append(("derivative-flow-blocked", bool(flow), f"d/dx [sum(floor(x)+sign(x)+2(x>0)) + sum(x)] = {g}"))
+            except Exception as ex:
+                rec.append(("probe", False, f"raised {type(ex).__name__}: {ex}"))
+            for nm, ok, d in rec:
+                rep.bounded_case(("NG-value", mode, nm), sample=dict(case=f"{mode}:{nm}", clause="NG-value") if ok and len(rep.bounded_samples) < 3 else None)
+                if not ok:
+                    rep.violation(f"{FN}:NG-value", f"{mode}:{nm}", f"{mode}: {d}", replay=dict(module="contracts.guards", label=f"NG-value {mode}:{nm}"), witness=True)
+    for name in NB.nondiff_methods + NB.diff_methods:
+        if name == "reshape":
+            continue   # deliberately replaced by numpy_vjps.wrapped_reshape (int-vs-tuple call forms); its behaviour is checked by the E4 reshape-method cases
+        ok = NB.ArrayBox.__dict__.get(name) is anp.__dict__.get(name)
+        rep.obligation(f"ArrayBox.{name}:NG-methods", ok, "symexec(ground)", 0, "E1b")
+        if not ok:
+            rep.violation(f"{FN}:NG-methods", name, f"ArrayBox.{name} is not autograd.numpy.{name}", witness=True, replay=dict(module="contracts.guards", label="NG-methods:" + name))
